@@ -52,12 +52,12 @@ CHECKS = {
     "C17": dict(level="fault_enumeration", engine="fakeredis+hooks",
         technique="crash sweep over every request prefix of each bookkeeping maintenance operation (real start-up bookkeeping and GC body through build-tag hooks); next start with the new configuration must find a position >= the one before, in the same DB",
         text="Checkpoint rename, re-key after failover (newOutput and SetRunId), bisync replay-mode switches (all six pairs, states produced by the real tool), stale-checkpoint GC at "
-             "five clock positions; 1-8 non-empty DBs, map-order sampling by repetition; exhaustive per observed request sequence. In-process re-key (SetRunId) additionally with each single request answered by an error once, followed by the tool's own retry.",
+             "five clock positions; 1-8 non-empty DBs, map-order sampling by repetition; exhaustive per observed request sequence. In-process re-key (SetRunId) additionally with each single request answered by an error once, followed by the tool's own retry.; entries of other replication ids must survive every stop point; GC tick overlapping a re-key after a failover; stale copy under a rename destination name",
         design="DESIGN.md §3 C17", note=TRUST + "; HGETALL order of the double is sorted (ids constrained so both orders agree)"),
     "C19": dict(level="exploration", engine="fakeredis cluster role",
         technique="runtime monitor: globally ordered per-node effect logs of a multi-node cluster double (routing by independent HASH_SLOT, MIGRATING/IMPORTING/ASK/MOVED/TRYAGAIN semantics) under scripted migration schedules; per-key segment oracle + resume-position clause",
         text="Real RedisOutput with a cluster client against 3-5 node doubles; schedules: none, MOVED between/mid batch, ASK windows with existing/missing keys, back-and-forth, node added; "
-             "blocking/pipelined, transactional/non-transactional; slot-table refresh released between two Puts of one batch; two connection-fault schedules (reset mid-batch, connection lost before the first reply). One known finding (non-atomic node pipelines) is listed in known_findings.json.",
+             "blocking/pipelined, transactional/non-transactional; slot-table refresh released between two Puts of one batch; two connection-fault schedules (reset mid-batch, connection lost before the first reply). Two known findings (non-atomic node pipelines: the reported flavour, and the silent bounce inversion of the blocking non-transactional sender) are listed in known_findings.json.",
         design="DESIGN.md §3 C19", note="the double enforces 'executed by the owner'; slots from internal/ref.HashSlot; " + TRUST),
     "C05": dict(level="exploration", engine="chanmodel",
         technique="runtime monitor at the Channel boundary of both cache backends against a byte-by-offset model (PRF bytes identify their origin); sequential generated op histories + concurrent writer/readers/collector/pollers under the race detector with interval-bound checks",
